@@ -141,7 +141,13 @@ type Collector struct {
 	maxSamples int
 	survey     map[string]*surveyRec
 	curTags    []string
+	recheck    func(kase any) []Violation
 }
+
+// SetRecheck installs the oracle used to confirm a shrunk counterexample once more before it
+// is reported: a failure that does not reproduce (machine load, a killed compiler) must end
+// as "inconclusive", never as a VIOLATION.
+func (c *Collector) SetRecheck(f func(kase any) []Violation) { c.recheck = f }
 
 type surveyRec struct {
 	N      int
@@ -388,6 +394,31 @@ func (c *Collector) finish(t *testing.T) {
 			}
 			sort.Strings(inter)
 			printf("SURVEY %s n=%d known=%v\n   %s\n   always=%s\n   case=%s\n", s, r.N, c.Open(s), r.Detail, strings.Join(inter, " "), b)
+		}
+	}
+	if c.lastFail != nil && t.Failed() && c.recheck != nil {
+		confirmed := false
+		func() {
+			defer func() { _ = recover() }() // replayed raw cases have another type: keep them as they are
+			confirmed = true
+			for try := 0; try < 2; try++ {
+				again := c.recheck(c.lastFail.Case)
+				same := false
+				for _, v := range again {
+					if v.Signature == c.lastFail.V.Signature {
+						same = true
+					}
+				}
+				if !same {
+					confirmed = false
+					return
+				}
+			}
+		}()
+		if !confirmed {
+			printf("NOT-REPRODUCED property=%s a failure (%s) did not reproduce when re-evaluated twice; treated as inconclusive\n", c.ID, c.lastFail.V.Signature)
+			c.writeEvidence()
+			os.Exit(2)
 		}
 	}
 	if c.lastFail != nil && t.Failed() {
